@@ -119,18 +119,26 @@ func content(tag, size int) (subject, from, to string, src []byte) {
 	from = fmt.Sprintf("from%d@example.com", tag)
 	to = fmt.Sprintf("to%d@example.org", tag)
 	head := fmt.Sprintf("Subject: %s\r\nFrom: %s\r\nTo: %s\r\n\r\n", subject, from, to)
-	var b bytes.Buffer
-	b.WriteString(head)
-	for i := 0; b.Len() < size; i++ {
-		if i%64 == 63 {
-			b.WriteString("\r\n")
-		} else {
-			b.WriteByte(byte('a' + (tag+i)%26))
+	if size < len(head) {
+		// too small for a header block (direct mode only): exactly size bytes derived from the tag
+		pat := []byte(fmt.Sprintf("<%d>", tag))
+		src = make([]byte, size)
+		for i := range src {
+			src[i] = pat[i%len(pat)]
 		}
+		return
 	}
-	src = b.Bytes()
-	if len(src) > size && size >= len(head) {
-		src = src[:size]
+	// exactly size bytes: the header block, then lines of a tag-dependent pattern
+	src = make([]byte, size)
+	n := copy(src, head)
+	for i := 0; n < size; i++ {
+		if i%64 == 63 && n+1 < size {
+			src[n], src[n+1] = '\r', '\n'
+			n += 2
+		} else {
+			src[n] = byte('a' + (tag+i)%26)
+			n++
+		}
 	}
 	return
 }
